@@ -77,6 +77,12 @@ def cases(rng, tier):
                 out.append(finish(build(rng, op, malformed), rng))
             except Exception as e:   # generator bug: never silently drop
                 raise
+    # EXHAUSTIVE sub-family: the complete discrete argument space of the reducing / shape ops on small operands
+    for op, leaves, args in gen_ops.enumerate_basic(rng, tier):
+        fixed = lambda r, o, m, leaves=leaves, args=args: (leaves, args)
+        c = finish(build(rng, op, False, gen=fixed), rng)
+        c['enumerated'] = True
+        out.append(c)
     # corner arguments every run: the empty tuple of dims (nothing is reduced) on operands with several elements, both keepdims
     for op in ('sum', 'mean'):
         for keep in (0, 1):
@@ -109,6 +115,7 @@ def distribution(cases):
         k = c['op'] + ('/rejected' if c['nout'] == 0 else '')
         d[k] = d.get(k, 0) + 1
     d['malformed'] = sum(1 for c in cases if c['malformed'])
+    d['enumerated: complete argument space of the reducing / shape ops on small operands'] = sum(1 for c in cases if c.get('enumerated'))
     return d
 
 
